@@ -3,6 +3,7 @@ package rules
 import (
 	"fmt"
 	"go/token"
+	"strings"
 
 	"golang.org/x/tools/go/ssa"
 
@@ -122,6 +123,56 @@ func ruleCountByteEOF(ctx *Ctx, rule string) {
 	}
 	if n == 0 {
 		r.Violation(rule, "ReadWord | count byte read: its error is passed on only when it is not io.EOF", q.Pos(f.Pos()), "no count-byte read whose error is latched or returned was found under a tag case")
+	}
+}
+
+// rulePackNoAlias (C13-R6): Pack and Unpack append to dst while they are still
+// reading src; the output of a run (tag byte, count byte) can get ahead of the
+// input, so dst must not be a window on src's own array. Every call in the module
+// passes a destination whose underlying slice value is not the source's.
+func rulePackNoAlias(ctx *Ctx, rule string) {
+	q := ssaq.For(ctx.Prog)
+	r := ctx.Rep
+	base := func(v ssa.Value) ssa.Value {
+		for {
+			switch x := v.(type) {
+			case *ssa.Slice:
+				v = x.X
+				continue
+			case *ssa.ChangeType:
+				v = x.X
+				continue
+			}
+			return v
+		}
+	}
+	n := 0
+	for _, f := range q.FuncsIn("", "internal/packed", "rpc", "encoding/text", "pogs", "schemas", "capnpc-go") {
+		k := 0
+		for _, b := range f.Blocks {
+			for _, in := range b.Instrs {
+				cn := ssaq.StaticCalleeName(in)
+				if cn != "internal/packed.Pack" && cn != "internal/packed.Unpack" {
+					continue
+				}
+				args := in.(ssa.CallInstruction).Common().Args
+				if len(args) != 2 {
+					continue
+				}
+				k++
+				n++
+				key := fmt.Sprintf("%s | %s #%d destination does not alias the source", ssaq.FuncName(f), cn[strings.LastIndex(cn, ".")+1:], k)
+				pos := q.Pos(ssaq.InstrPos(in))
+				if _, isNil := base(args[0]).(*ssa.Const); !isNil && base(args[0]) == base(args[1]) {
+					r.Violation(rule, key, pos, "the destination "+ssaq.RenderValue(f, args[0])+" is a window on the source's own array: once the packed output of dense data gets ahead of the words already read (two bytes per literal run), the codec overwrites input it has not consumed yet and unpack(pack(x)) != x")
+				} else {
+					r.Ok(rule, key, pos, "destination and source are different slices")
+				}
+			}
+		}
+	}
+	if n == 0 {
+		r.Fail("%s: no call of packed.Pack/Unpack found", rule)
 	}
 }
 
